@@ -68,7 +68,11 @@ func (in *Interp) bytesEqTerm(a, b []Sc) *Term {
 
 func (in *Interp) recordViolation(kind, label string, m map[string]uint64) {
 	where, _ := in.libWhere()
-	in.viols = append(in.viols, Violation{Label: label, Model: m, Kind: kind, Where: shortFn(where), Order: in.orderDev})
+	where = shortFn(where)
+	if strings.HasPrefix(label, "monitor:") && len(in.writeSites) > 0 {
+		where += " writes: " + strings.Join(in.writeSites, ", ")
+	}
+	in.viols = append(in.viols, Violation{Label: label, Model: m, Kind: kind, Where: where, Order: in.orderDev})
 }
 
 func (in *Interp) doAssert(c *Term, label string) {
@@ -296,6 +300,10 @@ func init() {
 	zz("zzMarkShared", func(in *Interp, a []Val) Val {
 		in.sharedMark = in.objSeq
 		in.sharedWrites = 0
+		if in.locks != nil {
+			in.locks.cells = map[lockKey]*lockInfo{}
+			in.locks.wkeys = nil
+		}
 		return nil
 	})
 	zz("zzSharedWrites", func(in *Interp, a []Val) Val { return concInt(64, uint64(in.sharedWrites)) })
@@ -496,7 +504,17 @@ func init() {
 	intrinsics["(*sync.Pool).Get"] = func(in *Interp, a []Val) Val {
 		p := a[0].(Ptr)
 		items := in.pools[p.Slot]
-		if len(items) > 0 && in.ex.ChooseFree("pool", 2) == 0 {
+		// whether Get hands back a pooled object or calls New is up to the
+		// runtime: a free decision for the first few Gets of a path that
+		// find the pool non-empty, after that the pooled object (what the
+		// runtime does when no GC intervenes; its stale contents are the
+		// interesting case) - otherwise n Gets cost 2^n paths
+		recycle := len(items) > 0
+		if recycle && in.poolChoices < in.poolChoiceMax() {
+			in.poolChoices++
+			recycle = in.ex.ChooseFree("pool", 2) == 0
+		}
+		if recycle {
 			it := items[len(items)-1]
 			in.pools[p.Slot] = items[:len(items)-1]
 			in.markPool(it.(Iface).V, false, 0)
@@ -513,18 +531,11 @@ func init() {
 		}
 		return r
 	}
-	for _, n := range []string{"(*sync.Mutex).Lock", "(*sync.Mutex).Unlock", "(*sync.RWMutex).Lock", "(*sync.RWMutex).Unlock", "(*sync.RWMutex).RLock", "(*sync.RWMutex).RUnlock"} {
-		name := n
-		intrinsics[name] = func(in *Interp, a []Val) Val {
-			in.inconclusive("the library uses " + name + ": locks are not modelled")
-			return nil
-		}
-	}
-
 	// ---- a second process: package-level variables are initialised again,
 	// with the given map iteration order
 	zz("zzNewProcess", func(in *Interp, a []Val) Val {
 		mode := concStr(a[0])
+		in.locks = nil
 		for g := range in.globals {
 			if g.Pkg == in.w.mq {
 				delete(in.globals, g)
